@@ -1,13 +1,5 @@
 /* Bounded EV+ swap harness: a small symbolic world of stored EV+MDD nodes (children and long edge values) with executable stubs (no contracts).
  * Everything the real swapAdjacentVariables calls outside itself is a stub that records what happened. */
-/* operator new[] throws std::bad_alloc on failure: the path ends (not a MEDDLY error).  The block has EXACTLY n elements (so an access at n is out of bounds);
-   the size is case-split into constants because CBMC turns a heap object of symbolic size into a byte array that does not solve */
-#undef VERIF_NEW_ARRAY
-#define VERIF_ALLOC_K(T, k) (T *)malloc(sizeof(T) * (k))
-#define VERIF_NEW_ARRAY(T, n) ({ size_t verif_n_ = (size_t)(n); T *verif_p_ = \
-    verif_n_ == 0 ? VERIF_ALLOC_K(T, 0) : verif_n_ == 1 ? VERIF_ALLOC_K(T, 1) : verif_n_ == 2 ? VERIF_ALLOC_K(T, 2) : verif_n_ == 3 ? VERIF_ALLOC_K(T, 3) : \
-    verif_n_ == 4 ? VERIF_ALLOC_K(T, 4) : verif_n_ == 5 ? VERIF_ALLOC_K(T, 5) : verif_n_ == 6 ? VERIF_ALLOC_K(T, 6) : verif_n_ == 7 ? VERIF_ALLOC_K(T, 7) : (T *)0; \
-    __CPROVER_assume(verif_n_ <= 7 && verif_p_ != NULL); verif_p_; })
 #ifndef SW_NODES
 #define SW_NODES 3                              /* stored nodes before the swap (quick tier: 2, thorough tier: 3) */
 #endif
@@ -64,9 +56,9 @@ void unique_table__getItems(const struct unique_table *t, int var, node_handle *
 static struct unpacked_node *sw_new_unpacked(int lvl, unsigned sz)
 {
     struct unpacked_node *u = (struct unpacked_node *)malloc(sizeof(struct unpacked_node));
-    node_handle *d = VERIF_NEW_ARRAY(node_handle, sz);
-    long *e = VERIF_NEW_ARRAY(long, sz);
-    __CPROVER_assume(u != NULL);
+    node_handle *d = (node_handle *)malloc(sizeof(node_handle) * sz);
+    long *e = (long *)malloc(sizeof(long) * sz);
+    __CPROVER_assume(u != NULL && d != NULL && e != NULL);
     u->_down = d; u->_edge = e; u->size = sz; u->level = lvl; u->is_full = 1; u->the_edge_type = edge_type__LONG;
     sw_unpacked_live++;
     return u;
